@@ -25,7 +25,9 @@ type c16Case struct {
 	Ops []op `json:"ops"`
 }
 
-var c16Exprs = []string{"* * * * * * *", "*/2 * * * * * *", "*/5 * * * * * *"}
+// (the last two have no occurrence in the future: a year that is over, a day
+// that does not exist)
+var c16Exprs = []string{"* * * * * * *", "*/2 * * * * * *", "*/5 * * * * * *", "0 0 0 1 1 * 2001", "0 0 0 30 2 * *"}
 
 const c16Pause = 700 * time.Millisecond
 
@@ -81,6 +83,7 @@ type c16Gen struct {
 	oneShot   bool
 	due       time.Time
 	expr      *cronexpr.Expression
+	never     bool // the expression has no occurrence in the future
 	schedule  string
 	addedAt   time.Time
 	removedAt time.Time // zero = never
@@ -158,18 +161,30 @@ func runC16(c c16Case) *vlib.Outcome {
 				}
 				g.schedule = c16Exprs[x.N]
 				g.expr = cronexpr.MustParse(g.schedule)
+				g.never = g.expr.Next(now).IsZero()
 			}
 			gg := g
 			fn := func(t time.Time) error {
 				mu.Lock()
 				gg.fires = append(gg.fires, time.Now())
 				mu.Unlock()
+				if gg.never {
+					// (must not have fired at all; do not let a firing
+					// loop spin at one virtual instant)
+					time.Sleep(time.Hour)
+				}
 				if gg.dur > 0 {
 					time.Sleep(gg.dur)
 				}
 				return nil
 			}
 			if err := cr.Add(ctx, x.Id, g.schedule, fn); err != nil {
+				if g.never {
+					// refusing a schedule without a future occurrence
+					// is fine (the job of that id, if any, stays)
+					o.Label("never-occurring-schedule-refused")
+					break
+				}
 				o.Fail("CRON_ADD_ERROR", "%s: Add failed: %v", when, err)
 				break
 			}
@@ -301,6 +316,12 @@ func runC16(c c16Case) *vlib.Outcome {
 			continue
 		}
 		// recurring
+		if g.never {
+			if len(g.fires) > 0 {
+				o.Fail("CRON_FIRED_WITHOUT_OCCURRENCE", "gen%d has the schedule %q, which has no occurrence after it was added, but fired at +%v; %s", g.n, g.schedule, g.fires[0].Sub(time.Unix(1257894000, 0)), hist())
+			}
+			continue
+		}
 		prev := g.addedAt
 		for k, f := range g.fires {
 			occ := g.expr.Next(prev)
